@@ -19,6 +19,7 @@ var defectKinds = []string{
 	"request-without-body", "response-without-body", "headers-not-object",
 	"empty-path-parameter", "repeated-path-parameter", "path-parameters-redefined",
 	"duplicate-types-other-notation", "notation-mix", "hostile-paths", "export-failures", "allof-duplicate-key-cycle", "check-errors-in-type-cycle",
+	"duplicate-children",
 }
 
 // defectGroups: kinds that are detected in the same phase of the builder.
@@ -28,7 +29,7 @@ var defectGroups = [][]string{
 	{"duplicate-types", "duplicate-types-other-notation", "undefined-types-many-types", "rule-violating-types", "mutual-bad-types", "allof-missing", "undefined-enums", "notation-mix", "allof-duplicate-key-cycle", "check-errors-in-type-cycle"}, // user types
 	{"duplicate-paths", "similar-paths", "path-extra-props", "path-bad-user-types", "path-parameters-redefined"},                                                                        // paths
 	{"empty-path-parameter", "repeated-path-parameter", "hostile-paths"},                                                                                                                // path parameters of Path-less directives
-	{"undefined-tags", "duplicate-tags", "duplicate-servers", "duplicate-operation-ids", "duplicate-enums", "bad-enum-bodies"},
+	{"undefined-tags", "duplicate-tags", "duplicate-servers", "duplicate-operation-ids", "duplicate-enums", "bad-enum-bodies", "duplicate-children"},
 }
 
 func defectBlock(kind string, n int, r *Rand) string {
@@ -84,6 +85,27 @@ func defectBlock(kind string, n int, r *Rand) string {
 		fmt.Fprintf(&sb, "TYPE @ao%d\n  { // {allOf: [\"@miss%da\", \"@miss%db\", \"@miss%dc\"]}\n    \"x\": 1\n  }\nGET /zao%d\n  200 @ao%d\n", n, n, n, n, n, n)
 	case "mutual-bad-types":
 		fmt.Fprintf(&sb, "TYPE @mb%da\n  {\n    \"b\": @mb%db,\n    \"x\": 1 // {min: 5}\n  }\nTYPE @mb%db\n  {\n    \"a\": @mb%da,\n    \"y\": 1 // {min: 7}\n  }\nTYPE @mb%dc\n  {\n    \"a\": @mb%da,\n    \"b\": @mb%db,\n    \"z\": 1 // {min: 9}\n  }\n", n, n, n, n, n, n, n)
+	case "duplicate-children":
+		// a child directive that its parent takes once, given twice: every parent has its own
+		// "already defined" path in the catalog setters (seeded change C01-t: the one of TAG)
+		forms := []string{
+			"TAG @dc%[1]d\n  Description\n    first\n  Description\n    second\nGET /dc%[1]d\n  Tags @dc%[1]d\n  200 any\n",
+			"GET /dc%[1]d\n  Description\n    first\n  Description\n    second\n  200 any\n",
+			"GET /dc%[1]d\n  Request any\n  Request any\n  200 any\n",
+			"GET /dc%[1]d\n  Query\n    {\"a\": 1}\n  Query\n    {\"b\": 2}\n  200 any\n",
+			"GET /dc%[1]d/{id}\n  Path\n    {\"id\": 1}\n  Path\n    {\"id\": 2}\n  200 any\n",
+			"GET /dc%[1]d\n  OperationId dcA%[1]d\n  OperationId dcB%[1]d\n  200 any\n",
+			"TAG @dct%[1]d\nGET /dc%[1]d\n  Tags @dct%[1]d\n  Tags @dct%[1]d\n  200 any\n",
+			"URL /dcj%[1]d\n  Protocol json-rpc-2.0\n  Method m%[1]d\n    Params\n      {}\n    Params\n      {}\n    Result\n      {}\n",
+			"URL /dcj%[1]d\n  Protocol json-rpc-2.0\n  Method m%[1]d\n    Params\n      {}\n    Result\n      {}\n    Result\n      {}\n",
+			"URL /dcj%[1]d\n  Protocol json-rpc-2.0\n  Protocol json-rpc-2.0\n  Method m%[1]d\n    Params\n      {}\n    Result\n      {}\n",
+			"URL /dcj%[1]d\n  Protocol json-rpc-2.0\n  Method m%[1]d\n    Description\n      a\n    Description\n      b\n    Params\n      {}\n    Result\n      {}\n",
+			"GET /dc%[1]d\n  Request\n    Headers\n      {\"X\": \"a\"}\n    Headers\n      {\"X\": \"b\"}\n    Body any\n  200 any\n",
+			"GET /dc%[1]d\n  200\n    Headers\n      {\"X\": \"a\"}\n    Headers\n      {\"X\": \"b\"}\n    Body any\n",
+			"SERVER @dcs%[1]d\n  BaseUrl \"https://a.example\"\n  BaseUrl \"https://b.example\"\n",
+			"TAG @dcn%[1]d\n  TAG @dcn%[1]dx\n    Description\n      a\n    Description\n      b\nGET /dc%[1]d\n  Tags @dcn%[1]dx\n  200 any\n",
+		}
+		fmt.Fprintf(&sb, forms[r.Intn(len(forms))], n)
 	case "duplicate-operation-ids":
 		for i := 0; i < k; i++ {
 			fmt.Fprintf(&sb, "GET /zo%d_%da\n  OperationId dupOp%d_%d\n  200 any\nGET /zo%d_%db\n  OperationId dupOp%d_%d\n  200 any\n", n, i, n, i, n, i, n, i)
